@@ -113,6 +113,11 @@ var c13StrClasses = []c13StrClass{
 		return b
 	}},
 	{"random-bytes", func(r *RNG, n int) []byte { return r.Bytes(n) }},
+	{"backslash", func(r *RNG, n int) []byte { // the escape introducer itself, and text that looks like an escape
+		b := c13Text(r, n)
+		copy(b[r.Intn(n):], []byte("\\u0000"))
+		return b
+	}},
 }
 
 func (x *c13Run) stringFail(class, typ string, b []byte, enc *big.Int, got, want string) {
